@@ -32,7 +32,8 @@ Init == kind = "" /\ baddirs = {} /\ badfiles = {} /\ path = "" /\ dfs = FALSE /
 ChooseDirs == /\ phase = "start" /\ kind' = "dirs" /\ baddirs' \in Subsets2(Dirs) /\ badfiles' = {}
               /\ path' \in {"streamed", "ordered", "aggregate"} /\ dfs' \in BOOLEAN /\ fmt' = "list" /\ k' = 0 /\ phase' = "done"
 (* notdir: a root that is a regular file; missing: a root that does not exist (fails when its path is resolved, before listing) *)
-ChooseNotDir == /\ phase = "start" /\ kind' \in {"notdir", "missing"} /\ baddirs' = {} /\ badfiles' = {}
+(* rxfile / rxmissing: a `regexp` root whose pattern segment sits under a regular file / under a directory that does not exist *)
+ChooseNotDir == /\ phase = "start" /\ kind' \in {"notdir", "missing", "rxfile", "rxmissing"} /\ baddirs' = {} /\ badfiles' = {}
                 /\ path' \in {"streamed", "ordered"} /\ dfs' \in BOOLEAN /\ fmt' = "list" /\ k' = 0 /\ phase' = "done"
 ChooseFiles == /\ phase = "start" /\ kind' = "files" /\ badfiles' \in Subsets2(Files) /\ baddirs' = {}
                /\ path' \in {"metadata", "content", "aggregate"} /\ dfs' = FALSE /\ fmt' = "list" /\ k' = 0 /\ phase' = "done"
@@ -62,12 +63,17 @@ Scenario ==
          world |-> W(baddirs, {}), bad |-> baddirs, path |-> path, k |-> 0,
          env |-> [tz |-> "UTC", cwd |-> 0, uid |-> 65534],
          runs |-> << [tag |-> "q", ncols |-> 2, argv |-> <<DirQuery>>] >>]
-    [] kind \in {"notdir", "missing"} ->
-        [prop |-> "C17", kind |-> kind, class |-> (IF kind = "notdir" THEN "root-not-a-directory/" ELSE "root-does-not-exist/") \o path \o (IF dfs THEN "/dfs" ELSE "/bfs"),
+    [] kind \in {"notdir", "missing", "rxfile", "rxmissing"} ->
+        [prop |-> "C17", kind |-> IF kind = "notdir" THEN "notdir" ELSE "missing",
+         class |-> (CASE kind = "notdir" -> "root-not-a-directory/" [] kind = "missing" -> "root-does-not-exist/"
+                      [] kind = "rxfile" -> "regexp-root-under-a-file/" [] OTHER -> "regexp-root-under-nothing/") \o path \o (IF dfs THEN "/dfs" ELSE "/bfs"),
          world |-> W({}, {}), bad |-> {}, path |-> path, k |-> 0,
          env |-> [tz |-> "UTC", cwd |-> 0, uid |-> 65534],
-         runs |-> << [tag |-> "q", ncols |-> 2, probes |-> <<"gone-root">>,
-                      argv |-> << "select inode, path from 'd3'" \o Mode \o (IF kind = "notdir" THEN ", 'f0.txt'" ELSE ", 'gone-root'") \o Mode \o ", 'd1'" \o Mode
+         runs |-> << [tag |-> "q", ncols |-> 2, probes |-> IF kind = "rxfile" THEN <<"f0.txt">> ELSE <<"gone-root">>,
+                      argv |-> << "select inode, path from 'd3'" \o Mode
+                                  \o (CASE kind = "notdir" -> ", 'f0.txt'" \o Mode [] kind = "missing" -> ", 'gone-root'" \o Mode
+                                         [] kind = "rxfile" -> ", 'f0.txt/s*' depth 1 rx" \o Mode [] OTHER -> ", 'gone-root/s*' depth 1 rx" \o Mode)
+                                  \o ", 'd1'" \o Mode
                                   \o (IF path = "ordered" THEN " order by path" ELSE "") \o " into list" >>] >>]
     [] kind = "files" ->
         [prop |-> "C17", kind |-> kind, class |-> "unreadable=" \o SetText(badfiles) \o "/" \o path,
